@@ -541,7 +541,7 @@ Lemma sign_then_verify ks sa ha n e d data sc h :
 Proof.
   intros SC Hn Hl He Dsc Hsc Hh.
   destruct (rsa_key_roundtrip n e Hn Hl He) as (k & K1 & K2).
-  unfold ks_set_signature. cbn [public_of]. rewrite K1. cbn [bind].
+  unfold ks_set_signature, sig_set_signature. cbn [public_of]. rewrite K1. cbn [bind].
   unfold new_signature_data. rewrite <- Dsc.
   assert (RH : rsa_hash_ok h = true) by (unfold rsa_hash_ok; lia).
   destruct Hsc as [[E Eh]|[E Eh]]; rewrite E in *.
@@ -589,7 +589,7 @@ Lemma ec_set_signature_total ks sa ha x y d data r s :
 Proof.
   intros Hx Hy D HS S Hr Hs.
   destruct (ecc_key_roundtrip x y Hx Hy) as [(k & K1 & K2 & K3) _].
-  unfold ks_set_signature. cbn [public_of]. rewrite K1. cbn [bind].
+  unfold ks_set_signature, sig_set_signature. cbn [public_of]. rewrite K1. cbn [bind].
   unfold new_signature_data. rewrite D.
   change (c16_alg_ecdsa =? c16_alg_rsapss) with false.
   change (c16_alg_ecdsa =? c16_alg_rsassa) with false. rewrite Z.eqb_refl. cbn zeta.
@@ -1186,3 +1186,79 @@ Proof.
 Qed.
 
 End PSBToken.
+
+(* ------------------------------------------------------------------ *)
+(* re-signing: SetSignature is a function of its arguments only         *)
+(* ------------------------------------------------------------------ *)
+
+Section Resign.
+Variable sign_rsa : privkey -> Z -> Z -> bytes -> bytes.
+Variable sign_ec : privkey -> Z -> Z -> bytes -> Z * Z.
+
+Lemma set_signature_by_data_old m m' sd ha : s_ver m = s_ver m' ->
+  set_signature_by_data m sd ha = set_signature_by_data m' sd ha.
+Proof. intros V. unfold set_signature_by_data. rewrite V. reflexivity. Qed.
+
+(* whatever the structure held before (an earlier signature, a parsed manifest), the result is
+   the same as on any other structure: nothing of the old scheme, hash, size or data survives *)
+Lemma set_signature_independent_of_old sa ha sk data :
+  (forall m m', sig_set_signature sign_rsa sign_ec m sa ha sk data =
+                sig_set_signature sign_rsa sign_ec m' sa ha sk data) /\
+  (forall ks ks', ks_set_signature sign_rsa sign_ec ks sa ha sk data =
+                  ks_set_signature sign_rsa sign_ec ks' sa ha sk data) /\
+  (forall ks ks', km_set_signature sign_rsa sign_ec ks sa ha sk data =
+                  km_set_signature sign_rsa sign_ec ks' sa ha sk data).
+Proof.
+  assert (A : forall m m', sig_set_signature sign_rsa sign_ec m sa ha sk data =
+                           sig_set_signature sign_rsa sign_ec m' sa ha sk data).
+  { intros m m'. unfold sig_set_signature.
+    destruct (new_signature_data sign_rsa sign_ec sa ha sk data); cbn [bind]; auto. }
+  assert (B : forall ks ks', ks_set_signature sign_rsa sign_ec ks sa ha sk data =
+                             ks_set_signature sign_rsa sign_ec ks' sa ha sk data).
+  { intros ks ks'. unfold ks_set_signature. rewrite (A (ks_sig ks) (ks_sig ks')). reflexivity. }
+  split; [exact A|]. split; [exact B|].
+  intros ks ks'. unfold km_set_signature. rewrite (B ks ks'). reflexivity.
+Qed.
+
+(* the recorded scheme is the one used, the recorded hash is the one the signer was given:
+   the requested one, or the default of the scheme used NOW when none was requested *)
+Lemma set_signature_records_what_was_used m sa ha sk data m' :
+  sig_set_signature sign_rsa sign_ec m sa ha sk data = Ok m' ->
+  let sc := detect_scheme sa sk in
+  let h := default_hash (scheme_default_hash sc) ha in
+  s_scheme m' = sc /\ s_ver m' = 16 /\ s_hashalg m' = h /\
+  (sc = c16_alg_rsapss \/ sc = c16_alg_rsassa -> s_data m' = sign_rsa sk sc h data) /\
+  (sc = c16_alg_ecdsa \/ sc = c16_alg_sm2 ->
+     exists w, rs_width (fst (sign_ec sk sc h data)) (snd (sign_ec sk sc h data)) = Some w /\
+               s_data m' = encode_rs w (fst (sign_ec sk sc h data)) (snd (sign_ec sk sc h data))).
+Proof.
+  unfold sig_set_signature, new_signature_data. cbn zeta.
+  set (sc := detect_scheme sa sk). unfold scheme_default_hash.
+  destruct (sc =? c16_alg_rsapss) eqn:E1.
+  { assert (sc = c16_alg_rsapss) as -> by lia.
+    destruct (rsa_hash_ok _); cbn [bind]; [|discriminate].
+    cbn [set_signature_by_data set_signature_data bind]. intros [= <-]. cbn [s_scheme s_ver s_hashalg s_data].
+    repeat split; auto. intros [H|H]; discriminate H. }
+  destruct (sc =? c16_alg_rsassa) eqn:E2.
+  { assert (sc = c16_alg_rsassa) as -> by lia.
+    destruct (rsa_hash_ok _); cbn [bind]; [|discriminate].
+    cbn [set_signature_by_data set_signature_data bind]. intros [= <-]. cbn [s_scheme s_ver s_hashalg s_data].
+    repeat split; auto. intros [H|H]; discriminate H. }
+  destruct (sc =? c16_alg_ecdsa) eqn:E3.
+  { assert (sc = c16_alg_ecdsa) as -> by lia.
+    destruct sk; try discriminate.
+    destruct (cbnt_hash_size _); [|discriminate]. cbn [bind].
+    unfold set_signature_by_data, set_signature_data.
+    destruct (rs_width _ _) as [w|] eqn:W; cbn [bind]; [|discriminate].
+    intros [= <-]. cbn [s_scheme s_ver s_hashalg s_data].
+    repeat split; auto; [intros [H|H]; discriminate H|]. intros _. exists w. split; auto. }
+  destruct (sc =? c16_alg_sm2) eqn:E4; [|discriminate].
+  assert (sc = c16_alg_sm2) as -> by lia.
+  destruct sk; try discriminate. cbn [bind].
+  unfold set_signature_by_data, set_signature_data.
+  destruct (rs_width _ _) as [w|] eqn:W; cbn [bind]; [|discriminate].
+  intros [= <-]. cbn [s_scheme s_ver s_hashalg s_data].
+  repeat split; auto; [intros [H|H]; discriminate H|]. intros _. exists w. split; auto.
+Qed.
+
+End Resign.
